@@ -125,7 +125,10 @@ func cmdRecord(args []string) int {
 			_, b := GenDoc(rng, sess.Model, kindList[rng.Intn(len(kindList))])
 			first := tw.Lines + 1
 			if permissive != nil {
-				permissive.SanitizeBytes(append([]byte{}, b...))
+				func() {
+					defer func() { recover() }() // a panic here is the permissive policy's; the policy under test is judged below
+					permissive.SanitizeBytes(append([]byte{}, b...))
+				}()
 			}
 			t0 := time.Now()
 			cr := tw.Sanitize(sess, b)
@@ -153,7 +156,20 @@ func cmdRecord(args []string) int {
 			res.judge(splitProps(*props), x, seenV)
 			// the same input through the string entry point: should it produce other bytes, they are judged as well
 			if cr.Rec.Panic == "" {
-				if alt := sess.Real.Sanitize(string(b)); alt != string(cr.Output) {
+				alt, altPanic := "", ""
+				func() {
+					defer func() {
+						if e := recover(); e != nil {
+							altPanic = fmt.Sprint(e)
+						}
+					}()
+					alt = sess.Real.Sanitize(string(b))
+				}()
+				if altPanic != "" {
+					prec := *cr.Rec
+					prec.Panic = "Sanitize(string): " + altPanic
+					res.judge(splitProps(*props), NewExec(recipe, sess.Model, sess.Real, b, nil, &prec), seenV)
+				} else if alt != string(cr.Output) {
 					res.judge(splitProps(*props), NewExec(recipe, sess.Model, sess.Real, b, []byte(alt), cr.Rec), seenV)
 				}
 			}
